@@ -1,18 +1,10 @@
 (* Tie: JobTimer.calc_next_exec and BaseJob.has_attempts_remaining as GENERATED from /repo's current
    source equal the hand-written model (Model/Timer.v, Model/Job.v).  Re-proved on every run. *)
 From Coq Require Import ZArith List Bool Lia ZifyBool.
-From Sv Require Import PyTime Timer Job Occur.
+From Sv Require Import PyTime Timer Job Occur PyRepr.
 From Gen Require Import GenOccur GenTimer GenJobState TieOccur TieWeekly.
 Import ListNotations.
 Open Scope Z_scope.
-
-Definition py_type (ty : jobtype) : pyjobtype :=
-  match ty with CYCLIC => JT_CYCLIC | MINUTELY => JT_MINUTELY | HOURLY => JT_HOURLY | DAILY => JT_DAILY | WEEKLY => JT_WEEKLY end.
-Definition py_timing (tg : timing) : pytiming :=
-  match tg with TCyclic T => PTdelta T | TTime t => PTtime t | TWeekday w t => PTweekday (mkWd w t) end.
-Definition py_of_timer (tm : timer) : pytimer :=
-  mkPyTimer (py_type (jt_type tm)) (py_timing (jt_timing tm)) (jt_next tm) (jt_skip tm).
-Definition py_res (r : res timer) : res pytimer := match r with Ok tm => Ok (py_of_timer tm) | Err e => Err e end.
 
 Lemma tie_calc_clock ty tg cur :
   ty <> CYCLIC -> valid_entry ty tg ->
